@@ -1,6 +1,7 @@
-pub mod known;
-pub mod runner;
-pub mod props;
-pub mod util;
 pub mod gen;
+pub mod known;
+pub mod props;
+pub mod runner;
+pub mod util;
+#[cfg(feature = "full")]
 pub mod hist;
